@@ -280,6 +280,173 @@ def place(body, result, placement):
     raise KeyError(placement)
 
 
+# ------------------------------------------------------------- typed twins
+# Literal tables (and scalar operands) that are pairwise equal for the HOST (Python: True == 1 == 1.0,
+# False == 0 == -0.0) but different JavaScript values, side by side in one function: whatever the engine does
+# with a big literal or a full constant pool (pooling, folding, sharing), every element keeps its own
+# typeof / String() / sign of zero, and every evaluation of a literal yields a fresh array.
+ENC_JS = ("var enc1 = function(x){ var ty = typeof x; return ty.charAt(0) + String(x) + "
+          "(ty === 'number' && x === 0 && 1 / x < 0 ? '-' : ''); }; "
+          "var encT = function(t){ var s = []; for (var i = 0; i < t.length; i++) s.push(enc1(t[i])); "
+          "return t.length + ':' + s.join(' '); }; ")
+
+# variant -> (source text, expected code) for pattern values 0, 1, 2
+TWIN_VARIANTS = {
+    "num": (("0", "n0"), ("1", "n1"), ("null", "onull")),
+    "bool": (("false", "bfalse"), ("true", "btrue"), ("null", "onull")),
+    "float": (("0.0", "n0"), ("1.0", "n1"), ("null", "onull")),
+    "negz": (("-0", "n0-"), ("1", "n1"), ("null", "onull")),
+    "str": (("'0'", "s0"), ("'1'", "s1"), ("'null'", "snull")),
+}
+TWIN_KINDS = {
+    "num+bool": ("num", "bool"), "bool+num": ("bool", "num"), "num+float+bool": ("num", "float", "bool"),
+    "bool+float": ("bool", "float"), "bool+negz": ("bool", "negz"), "negz+num": ("negz", "num"),
+    "num+str": ("num", "str"), "mixA+mixB": ("mixA", "mixB"), "mixB+float+mixA": ("mixB", "float", "mixA"),
+    "num+num": ("num", "num"),
+}
+TWIN_HOLDERS = ["vars", "object", "nested", "args", "inner-fns", "twice"]
+TWIN_NS_QUICK = [1, 2, 3, 127, 128, 129, 253, 254, 255, 256, 257, 258, 300, 511, 512, 513, 1000, 1023, 1024, 1025, 3000]
+TWIN_NS_EXTRA = [3000, 5000, 20000, 66000]
+
+
+def twin_pattern(n, pat):
+    """Pattern values per position: pat 0 = alternating 1/0 (the 'flags' table), otherwise seeded (with a few nulls)."""
+    if pat == 0:
+        return [1 - i % 2 for i in range(n)], [i % 3 == 0 for i in range(n)]
+    import random
+    rnd = random.Random(pat * 1000003 + n)
+    return [rnd.choice((0, 1, 0, 1, 0, 1, 1, 2)) for _ in range(n)], [rnd.random() < 0.5 for _ in range(n)]
+
+
+def twin_table(variant, vals, mask):
+    """(literal source, expected encT output) of one table."""
+    texts, codes = [], []
+    for v, m in zip(vals, mask):
+        var = variant
+        if variant == "mixA":
+            var = "bool" if m else "num"
+        elif variant == "mixB":
+            var = "num" if m else "bool"
+        t, c = TWIN_VARIANTS[var][v]
+        texts.append(t)
+        codes.append(c)
+    return "[" + ", ".join(texts) + "]", "%d:%s" % (len(vals), " ".join(codes)), codes[0]
+
+
+def twin_tables(kind, holder, n, pat):
+    """(body, result expression, expected string) - two or three typed twin tables of n elements held in one
+    function (or, holder 'inner-fns', one per inner function: the control)."""
+    vals, mask = twin_pattern(n, pat)
+    tabs = [twin_table(v, vals, mask) for v in TWIN_KINDS[kind]]
+    lits = [t[0] for t in tabs]
+    if holder == "vars":
+        make = " ".join("var t%d = %s;" % (i, l) for i, l in enumerate(lits)) + " var ts = [%s];" % ", ".join("t%d" % i for i in range(len(lits)))
+    elif holder == "object":
+        make = "var o = {%s}; var ts = [%s];" % (", ".join("k%d: %s" % (i, l) for i, l in enumerate(lits)), ", ".join("o.k%d" % i for i in range(len(lits))))
+    elif holder == "nested":
+        make = "var ts = [%s];" % ", ".join(lits)
+    elif holder == "args":
+        make = "var pack = function(x, y, z){ return z === undefined ? [x, y] : [x, y, z]; }; var ts = pack(%s);" % ", ".join(lits)
+    elif holder == "inner-fns":
+        make = " ".join("var m%d = function(){ return %s; };" % (i, l) for i, l in enumerate(lits)) + " var ts = [%s];" % ", ".join("m%d()" % i for i in range(len(lits)))
+    elif holder == "twice":
+        # one function holding every table, each literal evaluated twice: the second evaluation is a fresh array too
+        make = ("var mk = function(w){ " + " ".join("if (w === %d) return %s;" % (i, l) for i, l in enumerate(lits)) + " return null; }; var ts = [%s];"
+                % ", ".join("mk(%d)" % i for i in list(range(len(lits))) * 2))
+        tabs = tabs * 2
+    else:
+        raise KeyError(holder)
+    body = (ENC_JS + make + " var out = []; for (var q = 0; q < ts.length; q++) out.push(encT(ts[q]));"
+            " var same = 0; for (var i1 = 0; i1 < ts.length; i1++) for (var j1 = i1 + 1; j1 < ts.length; j1++) if (ts[i1] === ts[j1]) same++;"
+            " ts[0][0] = 'mut'; var heads = []; for (q = 0; q < ts.length; q++) heads.push(enc1(ts[q][0]));"
+            " var r = out.join('|') + '|same=' + same + '|' + heads.join(' ');")
+    expected = "|".join(t[1] for t in tabs) + "|same=0|" + " ".join(["smut"] + [t[2] for t in tabs[1:]])
+    return body, "r", expected
+
+
+# scalar twins as operands of one function whose constant pool holds n other constants
+TWIN_OPERAND_GROUPS = {
+    "bools": [("true", "btrue"), ("false", "bfalse"), ("null", "onull"), ("true + true", "n2"), ("false || 0", "n0"), ("!false", "btrue")],
+    "nums": [("1", "n1"), ("0", "n0"), ("-0", "n0-"), ("1.0", "n1"), ("0.0", "n0"), ("1 + true", "n2"), ("0 || false", "bfalse"),
+             ("0 === false", "bfalse"), ("1 == true", "btrue"), ("0 * -1", "n0-"), ("[0, false, -0, true, 1].length", "n5")],
+    "strs": [("'1'", "s1"), ("'0'", "s0"), ("'true'", "strue"), ("'false'", "sfalse"), ("'1' + 0", "s10"), ("'' + true + 1", "strue1")],
+    "small-tables": [("encT([true, 1, 1.0, false, 0, -0, '1', null])", "s8:btrue n1 n1 bfalse n0 n0- s1 onull"),
+                     ("encT([1, true, 0, false, -0, 0, '0', 0.0])", "s8:n1 btrue n0 bfalse n0- n0 s0 n0")],
+}
+TWIN_OPERAND_ORDERS = [("bools", "nums", "strs", "small-tables"), ("nums", "bools", "small-tables", "strs"), ("strs", "small-tables", "nums", "bools"),
+                       ("small-tables", "strs", "bools", "nums"), ("nums", "strs", "bools", "small-tables"), ("bools", "small-tables", "strs", "nums")]
+
+
+def twin_operands(order, n):
+    """n distinct filler constants spread between four groups of twin operands (order = index of the group order)."""
+    groups = TWIN_OPERAND_ORDERS[order % len(TWIN_OPERAND_ORDERS)]
+    cuts = [0, n // 3, n // 2, n - n // 4, n]
+    parts, codes = [ENC_JS + "var s = 0; var k = [];"], []
+    for gi, g in enumerate(groups):
+        parts.append(" ".join("s = s + %d;" % (1000 + i) for i in range(cuts[gi], cuts[gi + 1])))
+        for text, code in TWIN_OPERAND_GROUPS[g]:
+            parts.append("k.push(enc1(%s));" % text)
+            codes.append(code)
+    parts.append("var r = k.join(',') + '|' + s;")
+    return " ".join(parts), "r", ",".join(codes) + "|%d" % sum(1000 + i for i in range(n))
+
+
+def twin_build(shape, n, pat):
+    """shape = 'tables:<kind>/<holder>' or 'operands:<order>' -> (body, result, expected)"""
+    what, _, rest = shape.partition(":")
+    if what == "tables":
+        kind, _, holder = rest.partition("/")
+        return twin_tables(kind, holder, n, pat)
+    return twin_operands(int(rest), n)
+
+
+def twin_cases(chk):
+    import random
+    quick = chk.tier == "quick"
+    rnd = random.Random(core.shard_seed(chk.seed, "C14", "twins"))
+    seeded_pat = 1 + rnd.randrange(1 << 20)
+    rot = rnd.randrange(1 << 10)
+    out = []
+    ns = TWIN_NS_QUICK if quick else sorted(set(OPERAND_NS + TWIN_NS_EXTRA))
+    idx = 0
+    for kind in sorted(TWIN_KINDS):
+        for n in ns:
+            placements = PLACEMENTS
+            if quick or n > 5000:
+                placements = [PLACEMENTS[(idx + rot) % 4]]
+            for pi, placement in enumerate(placements):
+                idx += 1
+                holder = TWIN_HOLDERS[(idx * 5 + rot // 4 + pi) % len(TWIN_HOLDERS)]
+                pat = 0 if (idx + rot // 64) % 3 == 0 else seeded_pat
+                shape = "tables:%s/%s" % (kind, holder)
+                body, result, expected = twin_tables(kind, holder, n, pat)
+                out.append(((shape, placement, "twins"), n, place(body, result, placement), expected,
+                            any(abs(n - b) <= 3 for b in (128, 256, 512)) or n > 256, {"pat": pat}))
+    ons = OPERAND_NS_QUICK if quick else OPERAND_NS
+    for n in ons:
+        for placement in ([PLACEMENTS[(idx + rot) % 4]] if quick else PLACEMENTS):
+            idx += 1
+            order = (idx + rot) % len(TWIN_OPERAND_ORDERS)
+            shape = "operands:%d" % order
+            body, result, expected = twin_operands(order, n)
+            out.append(((shape, placement, "twins"), n, place(body, result, placement), expected,
+                        any(abs(n - b) <= 3 for b in (128, 256, 512)) or n > 256, {"pat": 0}))
+    return out
+
+
+def _first_diff(exp, val):
+    """Long string results: report the neighbourhood of the first difference instead of the whole strings."""
+    if exp[0] == "s" and isinstance(val, list) and len(val) == 2 and val[0] == "s" and isinstance(val[1], str) and len(exp[1]) + len(val[1]) > 400:
+        a, b = exp[1], val[1]
+        i = 0
+        m = min(len(a), len(b))
+        while i < m and a[i] == b[i]:
+            i += 1
+        lo = max(0, i - 60)
+        return (["s", "len %d; at %d: ...%s..." % (len(a), i, a[lo:i + 100])], ["s", "len %d; at %d: ...%s..." % (len(b), i, b[lo:i + 100])])
+    return exp, val
+
+
 # ---------------------------------------------------------------- measurement
 def bytes_per_unit(shape_fn, placement):
     """Bytecode bytes added per filler unit, measured through the compiler when it
@@ -357,7 +524,7 @@ def run_case(case):
         return ("hang", None, flag["started"])
 
 
-def judge(chk, tags, n, src, expected, res, boundary):
+def judge(chk, tags, n, src, expected, res, boundary, extra=None):
     shape, placement, family = tags
     key = "%s|%s|%d" % (shape, placement, n)
     chk.count()
@@ -365,14 +532,21 @@ def judge(chk, tags, n, src, expected, res, boundary):
     if boundary:
         chk.nontrivial(key)
     case = {"shape": shape, "placement": placement, "n": n, "family": family, "src_len": len(src), "src_head": src[:200]}
-    exp = ["n", engine.numkey(expected)]
+    if extra:
+        case.update(extra)
+    exp = ["s", expected] if isinstance(expected, str) else ["n", engine.numkey(expected)]
     sig = "%s|%s|%s" % (family, shape, placement)
+    if family == "twins":
+        # coarse: the kind of twins (tables: which typed variants; operands), not holder / placement / group order
+        sig = "twins|%s" % shape.split("/")[0].split(":")[0 if shape.startswith("operands") else 1]
+        sig = sig.replace("twins|", "twins|tables ") if shape.startswith("tables:") else sig
     if isinstance(res, (pool.HANG, pool.CRASH)):
         chk.violation(sig + "|" + repr(res), case, exp, repr(res), sub=family)
         return
     kind, val, started = res
     if kind == "value":
         if val != exp:
+            exp, val = _first_diff(exp, val)
             chk.violation(sig + "|wrong-value", case, exp, val, sub=family)
         else:
             chk.sample({"shape": shape, "placement": placement, "n": n, "result": val, "outcome": "ran"}, cls=sig, per_class=1, total=30)
@@ -462,6 +636,9 @@ def main(chk):
         "measured bytecode bytes per filler statement) to put the largest function just below/at/above each jump-encoding "
         "boundary, each at top level / in a function / in a callback; non-trivial = n or byte size within +-3 units of an "
         "encoding boundary or beyond it; distinct by (shape, placement, n)" % (len(OPERAND_SHAPES), len(BYTE_SHAPES))
+        + "; typed twins: %d kinds of two or three n-element literal tables whose elements are host-equal but different JavaScript "
+        "values (true/1/1.0, false/0/-0, strings as control) held in one function by %d holder forms, and twin scalar operands "
+        "around n pooled constants, judged element by element (typeof, String(), sign of zero, array identity)" % (len(TWIN_KINDS), len(TWIN_HOLDERS))
     )
     chk.assumptions = ["closed-form expected values are computed by the check itself; the bytes-per-statement measurement uses the compiler when importable and otherwise falls back to a wide sweep"]
     for path, rec in core.saved_replays("C14"):
@@ -470,9 +647,11 @@ def main(chk):
         if r["fails"]:
             chk.violation("saved-replay|" + path, rec.get("case"), r["expected"], r["actual"], sub="replay")
     cases = build(chk)
+    cases.extend(twin_cases(chk))
     res = pool.run(run_case, [(c[2],) for c in cases], timeout=400)
-    for (tags, n, src, expected, boundary), r in zip(cases, res):
-        judge(chk, tags, n, src, expected, r, boundary)
+    for c, r in zip(cases, res):
+        tags, n, src, expected, boundary = c[:5]
+        judge(chk, tags, n, src, expected, r, boundary, c[5] if len(c) > 5 else None)
     chk.exhaustive = False
 
 
@@ -480,6 +659,9 @@ def replay(rec):
     case = rec["case"]
     if "src" in case:
         src, expected = case["src"], case["expected_value"]
+    elif case.get("family") == "twins":
+        out = twin_build(case["shape"], case["n"], case.get("pat", 0))
+        src, expected = place(out[0], out[1], case["placement"]), out[2]
     else:
         fn = OPERAND_SHAPES.get(case["shape"]) or BYTE_SHAPES[case["shape"]]
         out = fn(case["n"])
